@@ -69,6 +69,7 @@ pub fn judge(input: &str, ctx: &mut CaseCtx) {
     for f in check_accounting(&tokens, nodes, &info) {
         let sig = match f.at {
             Some((line, col)) => format!("{}:{}", f.sig, context_key(&tokens, line, col)),
+            None if has_misplaced_side_effect(&tokens) => format!("{}:side-effect-block-not-next-to-a-value", f.sig),
             None => f.sig.clone(),
         };
         ctx.fail(sig, format!("{:?}: {}", input, f.detail));
@@ -88,7 +89,7 @@ pub fn judge(input: &str, ctx: &mut CaseCtx) {
         if needs_instruction(i, nodes) && !owned[i] {
             let t = nodes[i].get_lex_token();
             ctx.fail(
-                format!("node-without-instruction:{}", context_key(&tokens, t.get_line(), t.get_column())),
+                format!("node-without-instruction:{}", if has_misplaced_side_effect(&tokens) { "side-effect-block-not-next-to-a-value".to_string() } else { context_key(&tokens, t.get_line(), t.get_column()) }),
                 format!("{:?}: node {} ({:?} {:?}) is reachable but no emitted instruction is attributed to it", input, i, nodes[i].get_definition(), nodes[i].get_lex_token().get_text()),
             );
         }
@@ -125,6 +126,12 @@ pub fn has_misplaced_side_effect(tokens: &[garnish_lang_compiler::lex::LexerToke
         if !is_val(before) && !is_val(after) {
             return true;
         }
+        // two blocks in a row, or a block directly inside another block
+        if matches!(before, Some(TokenType::EndSideEffect) | Some(TokenType::StartSideEffect)) || matches!(after, Some(TokenType::StartSideEffect)) {
+            return true;
+        }
+        // a value with a block on both sides is fine, a block between two values belongs to the first one:
+        // `5 [x] 6` is defined; but a block whose value before it already carries a block is the adjacent case above
     }
     false
 }
@@ -148,6 +155,7 @@ pub fn context_key(tokens: &[garnish_lang_compiler::lex::LexerToken], line: usiz
     if has_misplaced_side_effect(tokens) {
         return "side-effect-block-not-next-to-a-value".to_string();
     }
+    let _ = (prev, this, next);
     format!("{}|{}|{}", prev, this, next)
 }
 
@@ -156,7 +164,7 @@ impl Check for C04Check {
         "C04"
     }
     fn rule(&self) -> String {
-        "Same corpus as C03 (every sequence of up to L token classes x 3 separators, token soups) plus well-formed operator expressions (level-representative triples in two layouts, random deeper expressions with groups from the C02 generator). \
+        "Same corpus as C03 (every sequence of up to L token classes x 3 separators, token soups) plus well-formed operator expressions (level-representative triples in two layouts, random deeper expressions with groups from the C02 generator) and every string of up to 9 (quick) / 10 (thorough) tokens over {5, [, ], +, space} (all placements of side-effect blocks around values). \
          Judged only when parse and build both accept: child/parent links agree, no node is reached twice (sharing/cycle), the in-order walk has strictly increasing source positions, every significant token (values, operators, openers, `;;`) is carried by exactly one reachable node, \
          separators standing between two operands (outside `( )`) are kept, no node carries a token that is not in the input, and every reachable value/operator node owns at least one instruction in BuildData::instruction_metadata \
          (exempt: Group, ElseJump, a List/CommaList nested directly in a list of the same kind). Non-trivial = accepted input with >= 3 significant tokens and at least one token that creates no node; distinct = distinct inputs."
@@ -174,6 +182,7 @@ impl Check for C04Check {
         vec![
             Phase::exhaustive("class-sequences", class_sequence_count(l)).with_chunk(8192),
             Phase::exhaustive("operator-triples", r * r * r * 2).with_chunk(4096),
+            Phase::exhaustive("side-effect-placements", alphabet_count(SIDE_EFFECT_ALPHABET.len() as u64, tier.pick(9, 10))).with_chunk(16384),
             Phase::random("token-soups", tier.pick(100_000, 3_000_000), 120).with_min_tape(6).with_chunk(1024),
             Phase::random("random-deep-expressions", tier.pick(100_000, 3_000_000), 96).with_min_tape(16).with_chunk(2048),
         ]
@@ -200,11 +209,12 @@ impl Check for C04Check {
                     None => ctx.class("invalid-fixity-sequence"),
                 }
             }
-            (2, Input::Tape(t)) => {
+            (2, Input::Index(i)) => judge(&alphabet_string(*i, SIDE_EFFECT_ALPHABET, tier.pick(9, 10)), ctx),
+            (3, Input::Tape(t)) => {
                 let s = token_soup(&mut Tape::new(t), 40);
                 judge(&s, ctx);
             }
-            (3, Input::Tape(t)) => {
+            (4, Input::Tape(t)) => {
                 let s = c02::random_source(t);
                 judge(&s, ctx);
             }
